@@ -347,8 +347,16 @@ def r4(ctx: Ctx) -> None:
             kind = "max"
         else:
             continue
-        if val[0] == "proj":
-            projs[val[2]] = (kind, tgt[2] if tgt[0] == "proj" else None)
+        # position k of the cell / of the running box: an unpacked component (proj) or, in the normal form of an unpacked plain
+        # sequence, the item [k]
+        def pos(e):
+            if e[0] == "proj":
+                return e[2]
+            if e[0] == "s" and e[2][:2] == ("k", "num") and e[2][2][1] == 1:
+                return e[2][2][0]
+            return None
+        if pos(val) is not None:
+            projs[pos(val)] = (kind, pos(tgt))
     want = {0: "min", 1: "min", 2: "max", 3: "max"}
     if {k: v[0] for k, v in projs.items()} != want or any(v[1] is not None and v[1] != k for k, v in projs.items()):
         ctx.report(g.where, f"bbox-update {projs}", "the bounding box of a box's cells is not (min x1, min y1, max x2, max y2) position by position", lineno=g.node.lineno)
@@ -415,6 +423,13 @@ def r7_grid_tables(ctx: Ctx) -> None:
                 cur, before = ("s", srt, i), ("s", srt, (to_poly(i) - Poly.const(1)).to_s())
                 if {("set", ("s", nxt, before), cur), ("set", ("s", prv, cur), before)} <= set(lp[3]) and len(lp[3]) == 2:
                     ok = True
+        # the same links written as mappings built from the list and the list shifted by one
+        tail = ("s", srt, ("slice", k_num(1), K_NONE, K_NONE))
+
+        def zipped(a_, b_):
+            return ("c", ("g", "dict"), (("c", ("g", "zip"), (a_, b_), ()),), ())
+        if not ok and nxt == zipped(srt, tail) and prv == zipped(tail, srt):
+            ok = True
         if not ok:
             ctx.report(f.where, f"coordinate-links {axis}", f"next_{axis} / prev_{axis} do not link every pair of consecutive {axis} coordinates", lineno=f.node.lineno)
 
